@@ -16,7 +16,7 @@ theorem isSpace_eq (c : Char) : GoRT.unicode_IsSpace c = isSpace c := rfl
 
 theorem forEach_contains (c : Char) : ∀ (bad : List Char) (i : Int),
     GoRT.forEachAux (ρ := Bool) (fun (_ : Int) r () => if (c == r) then GoRT.Step.ret true else GoRT.Step.next ()) i bad ()
-      = if bad.contains c then GoRT.Step.ret true else GoRT.Step.next ()
+      = if bad.contains c then GoRT.Done.ret true else GoRT.Done.fin ()
   | [], _ => by simp [GoRT.forEachAux]
   | r :: rs, i => by
     have ih := forEach_contains c rs (i + 1)
@@ -122,7 +122,7 @@ theorem idx1 (a b : List Char) (l : List (List Char)) : GoRT.idx (a :: b :: l) 1
 
 /-- `NewJid`: the error flag is exactly "the model rejects", and on success the fields are the model's. -/
 theorem tr_NewJid (s : List Char) :
-    (Gen.TrStanza.NewJid s).2 = (newJid s).isNone ∧ ∀ m, newJid s = some m → (Gen.TrStanza.NewJid s).1 = concJ m := by
+    (Gen.TrStanza.NewJid s).2 = (if (newJid s).isNone then GoRT.Err.plain else GoRT.Err.none) ∧ ∀ m, newJid s = some m → (Gen.TrStanza.NewJid s).1 = concJ m := by
   unfold Gen.TrStanza.NewJid newJid afterAt finish
   simp only [splitN2, tr_isUsernameValid, tr_isDomainValid, jid_default]
   by_cases hs : s = []
@@ -153,8 +153,8 @@ theorem tr_NewJid (s : List Char) :
 
 /-- **C15 about the translated code**: whatever string `NewJid` accepts, formatting the result with `Full()` and
 parsing again yields the same three parts and no error. -/
-theorem C15_translated_full_roundtrip (s : List Char) (h : (Gen.TrStanza.NewJid s).2 = false) :
-    Gen.TrStanza.NewJid (Gen.TrStanza.Jid_Full (Gen.TrStanza.NewJid s).1) = ((Gen.TrStanza.NewJid s).1, false) := by
+theorem C15_translated_full_roundtrip (s : List Char) (h : (Gen.TrStanza.NewJid s).2 = GoRT.Err.none) :
+    Gen.TrStanza.NewJid (Gen.TrStanza.Jid_Full (Gen.TrStanza.NewJid s).1) = ((Gen.TrStanza.NewJid s).1, GoRT.Err.none) := by
   have ⟨he, hm⟩ := tr_NewJid s
   rw [h] at he
   cases hn : newJid s with
@@ -170,9 +170,10 @@ theorem C15_translated_full_roundtrip (s : List Char) (h : (Gen.TrStanza.NewJid 
 
 /-- an accepted string has a non-empty domain without '@', '/' or white space, and a local part without the forbidden
 characters (the translated validators are the model's) -/
-theorem C15_translated_rejects_empty : (Gen.TrStanza.NewJid []).2 = true := by
+theorem C15_translated_rejects_empty : (Gen.TrStanza.NewJid []).2.isErr = true := by
   have := (tr_NewJid []).1
-  simpa [Props.C15.C15_rejects_empty] using this
+  rw [this]
+  simp [Props.C15.C15_rejects_empty]
 
 end XmppVerif.Tie.TrJid
 #print axioms XmppVerif.Tie.TrJid.tr_NewJid
